@@ -17,7 +17,7 @@ use vmc::{fnv, json, Json};
 const SCHEMES: [&str; 2] = ["ipp", "http"];
 const HOSTS: [&str; 2] = ["127.0.0.1", "localhost"];
 const USERINFOS: [Option<&str>; 4] = [None, Some("u:p"), Some("joe@example.com:s3cret"), Some("u%40x")];
-const PATHS: [&str; 7] = ["", "/", "/ipp/print", "/printers/a%20b", "/printers/jdoe@corp", "/a//b;c=d@e", "/@"];
+const PATHS: [&str; 9] = ["", "/", "/ipp/print", "/printers/a%20b", "/printers/jdoe@corp", "/a//b;c=d@e", "/@", "//ipp/print", "//"];
 const QUERIES: [Option<&str>; 5] = [None, Some(""), Some("q=1&r=2"), Some("user=a@b"), Some("u:p@evil/x")];
 /// 0 plain, 1 basic_auth, 2 custom header, 3 an Authorization header given as a custom header
 const NCONFIG: u64 = 4;
